@@ -1,4 +1,6 @@
 import PegVerif.Proofs.Packrat
+import PegVerif.Proofs.PackratLR
+import PegVerif.Proofs.PackratLRPure
 import PegVerif.Proofs.NonVacuity
 /-
   C06 – a memoized rule body runs at most once per input position (packrat bound).
@@ -110,3 +112,73 @@ end C06_nv
 /-! ## non-vacuity (END) -/
 
 end Peg.Props
+
+/-
+  C06 – a memoized rule body runs at most once per input position (packrat bound) – for grammars that
+  may contain `@leftrec` rules.  The statements of Props/C06.lean with `NoLeftrec env.g` replaced by the
+  weakest hypothesis each of them needs:
+
+  * the cache discipline (`C06_result_is_cached`, `C06_answered_from_cache`, `C06_no_reevaluation`): NO
+    hypothesis on the grammar; the key / rule in question must not itself be `@leftrec`
+    (`PLR.IsLR env k.1` false – for a `@leftrec` key the grow loop evaluates the body once per iteration
+    and re-inserts the key, by design);
+  * the counting forms (`C06_once`, `C06_bound`): pure user functions and the grammar in the class `LROk`
+    (SpecLR.lean).  `PLR.ExampleBad` (PackratLR.lean) is a grammar outside the class, with pure hooks,
+    in which a memoized rule on a left-recursive cycle is evaluated twice at one offset.
+
+  They hold wherever the memoized rule is called from – in particular from inside a grow loop, where
+  the same memoized rule is called at the same offset in every iteration and answered from the cache
+  from the second iteration on (`PLR.Example`: `@leftrec E = l:*E '+' r:Num | b:Num`, `@memoize Num`).
+-/
+namespace Peg.Props.LR
+open Peg PLR
+
+/-- **At most once per position.** -/
+theorem C06_once {env : Env} (hp : PureHooks env.hooks) (hok : LROk env.g env.settings)
+    {n : Nat} {rule : String} {inp : List UInt8} {u : Nat} {r : Res Val} {g' : Global}
+    (h : parseAdvanced env n rule inp u = some (r, g')) (k : String × Nat) (hk : ¬ IsLR env k.1) :
+    evals g'.log k ≤ 1 :=
+  C06_parse_once_pureLR hp hok h k hk
+
+/-- **The bound**: at most (number of memoized non-`@leftrec` rules) × (input length + 1) body
+    evaluations of such rules -/
+theorem C06_bound {env : Env} (hp : PureHooks env.hooks) (hok : LROk env.g env.settings)
+    {n : Nat} {rule : String} {inp : List UInt8} {u : Nat} {r : Res Val} {g' : Global}
+    (h : parseAdvanced env n rule inp u = some (r, g')) :
+    (bodyKeysM env g'.log).length ≤ (memoNamesM env.g).length * (inp.length + 1) :=
+  C06_bound_pureLR hp hok h
+
+/-- whatever a memoized rule returns – success or failure – is in the cache afterwards -/
+theorem C06_result_is_cached {env : Env} {n : Nat} {name : String} {s : St} {g g' : Global}
+    {r : Res Val} {r0 : Rule} (h : (eval env n).rule name s g = some (r, g')) (hp : ∀ m, r ≠ .panic m)
+    (hf : env.g.find name = some (.rule r0)) (hm : r0.flags.memoize = true)
+    (hlr : r0.flags.leftRecursive = false) :
+    g'.lookup (name, s.off) = some r :=
+  PLR.C06_evaluated_cached h hp hf hm hlr
+
+/-- every further attempt at that position is answered from the cache: no body evaluation, the
+    cached entry is returned as is -/
+theorem C06_answered_from_cache {env : Env} {n : Nat} {name : String} {s : St} {g g' : Global}
+    {r c : Res Val} {r0 : Rule} (h : (eval env n).rule name s g = some (r, g'))
+    (hf : env.g.find name = some (.rule r0)) (hm : r0.flags.memoize = true)
+    (hlr : r0.flags.leftRecursive = false)
+    (hc : g.lookup (name, s.off) = some c) :
+    r = c ∧ ∀ l, g'.log = l ++ g.log → ∀ k, evals l k = 0 :=
+  PLR.C06_hit_returns_entry h hf hm hlr hc
+
+/-- two successive evaluations: what the first evaluated to completion the second never evaluates
+    again (no hypothesis on user functions, none on the grammar) -/
+theorem C06_no_reevaluation {env : Env} {g g1 g2 : Global} {b : Bool}
+    (h1 : Run env g false g1) (h2 : Run env g1 b g2) {l1 l2 : List Ev}
+    (hl1 : g1.log = l1 ++ g.log) (hl2 : g2.log = l2 ++ g1.log) {k : String × Nat}
+    (hn : ¬ IsLR env k.1) (hk : 0 < evals l1 k) : evals l2 k = 0 :=
+  PLR.C06_no_reevaluation h1 h2 hl1 hl2 hn hk
+
+/-- for grammars without `@leftrec` rules these are the statements of Props/C06.lean (every key) -/
+theorem C06_once_noLeftrec {env : Env} (hp : PureHooks env.hooks) (hok : LROk env.g env.settings)
+    (hnl : NoLeftrec env.g)
+    {n : Nat} {rule : String} {inp : List UInt8} {u : Nat} {r : Res Val} {g' : Global}
+    (h : parseAdvanced env n rule inp u = some (r, g')) (k : String × Nat) : evals g'.log k ≤ 1 :=
+  C06_parse_once_pureLR_noLeftrec hp hok hnl h k
+
+end Peg.Props.LR
